@@ -205,6 +205,27 @@ pub broadcast proof fn lemma_mul_lower(x: int, y: int, xm: int, ym: int)
 {
     assert(x * y >= xm * ym) by(nonlinear_arith) requires 0 <= xm <= x, 0 <= ym <= y;
 }
+
+pub broadcast proof fn lemma_divmod_pos(n: int, d: int)
+    requires d > 0, n >= 0
+    ensures #![trigger n / d] n == d * (n / d) + n % d && 0 <= n % d < d && n / d >= 0
+{
+    vstd::arithmetic::div_mod::lemma_fundamental_div_mod(n, d);
+    vstd::arithmetic::div_mod::lemma_mod_bound(n, d);
+    vstd::arithmetic::div_mod::lemma_div_pos_is_pos(n, d);
+}
+// x*y <= c, y >= ym >= 1, x >= 0  ==>  x <= c / ym
+pub broadcast proof fn lemma_div_upper(x: int, y: int, c: int, ym: int)
+    requires x * y <= c, y >= ym, ym >= 1, c >= 0
+    ensures #![trigger x * y, c / ym] x <= c / ym
+{
+    lemma_divmod_pos(c, ym);
+    if x > c / ym {
+        assert(x >= c / ym + 1);
+        assert(x * y >= (c / ym + 1) * ym) by(nonlinear_arith) requires x >= c / ym + 1, y >= ym, ym >= 1, c / ym >= 0;
+        assert((c / ym + 1) * ym == ym * (c / ym) + ym) by(nonlinear_arith);
+    }
+}
 pub broadcast proof fn lemma_mul_sign(x: int, y: int)
     ensures
         #![trigger x * y]
@@ -222,7 +243,7 @@ pub broadcast proof fn lemma_mul_sign(x: int, y: int)
       && (x >= 1 && y >= 1 ==> x * y >= 1) && (x <= -1 && y <= -1 ==> x * y >= 1) && (x >= 1 && y <= -1 ==> x * y <= -1) && (x <= -1 && y >= 1 ==> x * y <= -1) && (x == 0 || y == 0 ==> x * y == 0)) by(nonlinear_arith);
 }
 }
-broadcast use {lemmas::lemma_mul_sign, lemmas::lemma_mul_upper, lemmas::lemma_mul_lower};
+broadcast use {lemmas::lemma_mul_sign, lemmas::lemma_mul_upper, lemmas::lemma_mul_lower, lemmas::lemma_divmod_pos, lemmas::lemma_div_upper};
 fn propagate_signs<VA: IntegerVariable, VB: IntegerVariable, VC: IntegerVariable>(
     context: &mut PropagationContextMut,
     a: &VA,
